@@ -833,7 +833,7 @@ func runLoopScenario(t *testing.T, fam string, seed uint64, idx int, out *bufio.
 		ctx, cancel := context.WithCancel(context.Background())
 		r.cancel = cancel
 		go func() {
-			err := server.Loop(ctx, r.acc, r.newService, nil)
+			err := server.Loop(ctx, r.acc, r.newService, &server.LoopOptions{ServerOptions: &jrpc2.ServerOptions{Concurrency: 4}})
 			v := "nil"
 			if err != nil {
 				if err == lErrAccept {
